@@ -31,6 +31,9 @@ func (Keeper).ConvertVestingAccount
     ensures nothing_locked: result.1 == nil ==> ciszero(csub(O, Read(st, old(acct_cva[a].LockupPeriods), now)))
     ensures nothing_unvested: result.1 == nil ==> ciszero(csub(O, Read(st, old(acct_cva[a].VestingPeriods), now)))
     ensures converted: result.1 == nil ==> acct_iscva == upd(old(acct_iscva), a, false)
+    // C03 (replay protection survives the conversion back): the stored EthAccount is built over the vesting account's own base account
+    // object - address, account number, public key and the sequence number are kept
+    call SetAccount requires c03_same_base: typeis(acc, *EthAcct) && cast(acc, *EthAcct).BaseAccount == vestingAcc.BaseAccount
     ensures refused: result.1 != nil ==> acct_iscva == old(acct_iscva) && acct_cva == old(acct_cva) && acct_bva == old(acct_bva)
     allow frame
 
